@@ -19,7 +19,6 @@
 from io import BytesIO
 
 import vcsgraph.graph as graph
-from vcsgraph.graph import HeadsCache
 
 from ..lazy_import import lazy_import
 
@@ -181,7 +180,11 @@ class VersionedFileCommitBuilder(CommitBuilder):
         self.basis_delta_revision = basis_id
         self._new_inventory = None
         self._basis_delta = []
-        self.__heads = HeadsCache(repository.get_graph()).heads
+        # Per-file heads are taken in the per-file graph, not in the revision
+        # graph: a file id that was removed and added again (or introduced
+        # independently on two lines of history) has versions that are
+        # ancestors of each other in the revision graph only.
+        self._file_graph = None
         # memo'd check for no-op commits.
         self._any_changes = False
         self._owns_transaction = owns_transaction
@@ -354,10 +357,13 @@ class VersionedFileCommitBuilder(CommitBuilder):
     def _heads(self, file_id, revision_ids):
         """Calculate the graph heads for revision_ids in the graph of file_id.
 
-        This can use either a per-file graph or a global revision graph as we
-        have an identity relationship between the two graphs.
+        The per-file graph (repository.texts) is used: it is what check and
+        reconcile compare the recorded text parents against.
         """
-        return self.__heads(revision_ids)
+        if self._file_graph is None:
+            self._file_graph = graph.Graph(self.repository.texts)
+        keys = [(file_id, revision_id) for revision_id in revision_ids]
+        return {key[1] for key in self._file_graph.heads(keys)}
 
     def get_basis_delta(self):
         """Return the complete inventory delta versus the basis inventory.
